@@ -40,7 +40,7 @@ type vfProdConf struct {
 	LogAppend        bool   `json:"logAppend"`
 	MaxRequestSize   int32  `json:"maxRequestSize,omitempty"`
 	NoSuccesses      bool   `json:"noSuccesses,omitempty"`
-	Interceptors     []string `json:"interceptors,omitempty"` // C18: "hdr" | "mut" | "panic"
+	Interceptors     []string `json:"interceptors,omitempty"` // C18: "hdr" | "mut" | "panic"; C16: "pad"
 	MetaRetryMax     int    `json:"metaRetryMax"`
 }
 
@@ -343,12 +343,20 @@ func (pi *vfProdInterceptor) OnSend(msg *ProducerMessage) {
 		if b, ok := msg.Value.(vfByteEnc); ok && b != nil {
 			msg.Value = vfByteEnc(append(append([]byte{}, b...), byte('A'+pi.who)))
 		}
+	case "pad":
+		// enlarges the value (an envelope, a trailer): what the producer sends - and measures against its limits - is the
+		// message as the interceptors leave it
+		if b, ok := msg.Value.(vfByteEnc); ok && b != nil {
+			msg.Value = vfByteEnc(append(append([]byte{}, b...), vfPadBytes...))
+		}
 	case "panic":
 		if idx >= 0 && idx%2 == 0 {
 			panic("vf: scripted interceptor panic")
 		}
 	}
 }
+
+var vfPadBytes = []byte("|0123456789abcdefghijklmnopqrstuvwxyz0123456789|") // 48 bytes
 
 const vfTqQuick = 5 * time.Second
 
